@@ -176,7 +176,7 @@ def run_suite(ctx, only_best=False):
         return
     # ---------------- combinators of abstract.py on a bare scripted optimizer ----------------
     small = [p for p in pops if len(p) <= 3]
-    pairs = list(itertools.product(small, small)) if ctx.thorough else rng.sample(list(itertools.product(small, small)), 1500)
+    pairs = rng.sample(list(itertools.product(small, small)), 40000 if ctx.thorough else 1500)
     for _ in range(30):
         k = rng.randrange(4, 30)
         pairs.append(([rng.uniform(-5, 5) for _ in range(k)], [float(rng.randrange(-3, 4)) for _ in range(rng.choice([k, k, k + 2, max(1, k - 1)]))]))
